@@ -830,6 +830,7 @@ fn normalize_blank_lines(
         if i < lines.len()
             && !lines[i].trim().is_empty()
             && toplevel_lines.contains(&i)
+            && !string_lines.contains(&i)
             && !line.trim_start().starts_with("//")
         {
             // Next non-blank line is a toplevel definition, but there's no blank line
